@@ -68,7 +68,7 @@ def confirm(prop, src, suffix, letter):
     json.dump(md, open(os.path.join(dst, 'meta.json'), 'w'), indent=1)
 
 def run(names, tier):
-    res_path = os.path.join(ROOT, 'results.json')
+    res_path = os.environ.get('SEED_RESULTS') or os.path.join(ROOT, 'results.json')
     results = json.load(open(res_path)) if os.path.exists(res_path) else {}
     for name in sorted(os.listdir(ROOT)):
         d = os.path.join(ROOT, name)
